@@ -41,16 +41,35 @@ impl ConvertibleIn<DimNameState> for DimVar {
         let shared = extra.shared;
         shared_illegal_in_sub_function(ctx, shared, extra.pos)?;
         let (bare_name, var_type) = self.into();
-        let (var_type, redim_info) = if extra.dim_context == DimContext::Redim {
+        let is_redim = extra.dim_context == DimContext::Redim;
+        let (var_type, redim_info) = if is_redim {
             on_redim_type(var_type, &bare_name, ctx, extra)?
         } else {
             let var_type = on_dim_type(var_type, &bare_name, ctx, extra)?;
             (var_type, None)
         };
-        ctx.names
-            .insert(bare_name.clone(), &var_type, shared, redim_info);
+        if is_redim && redim_of_shared_array_of_module(ctx, &bare_name) {
+            // REDIM of a SHARED array of the module inside a subprogram:
+            // it is the same array, not a new local one
+        } else {
+            ctx.names
+                .insert(bare_name.clone(), &var_type, shared, redim_info);
+        }
         Ok(Self::new(bare_name, var_type))
     }
+}
+
+/// Checks if the name is a SHARED dynamic array of the module,
+/// seen from a subprogram that does not have a variable of that name of its own.
+fn redim_of_shared_array_of_module(ctx: &LinterContext, bare_name: &BareName) -> bool {
+    if !ctx.is_in_subprogram() {
+        return false;
+    }
+    let found = ctx.names.find_name_or_shared_in_parent(bare_name);
+    !found.is_empty()
+        && found
+            .iter()
+            .all(|(_, variable_info)| variable_info.shared && variable_info.redim_info.is_some())
 }
 
 fn shared_illegal_in_sub_function(
